@@ -26,6 +26,7 @@ from ..tast import (
     Tup,
     TVar,
     Uni,
+    Unsup,
 )
 
 
@@ -200,6 +201,7 @@ class Ctx:
     env: Dict[str, Obj] = field(default_factory=dict)
     tvars: Dict[str, T] = field(default_factory=dict)
     coerce: bool = False
+    custom_coercer: Any = None
     strict_literals: bool = True
 
     def alias(self, s: str) -> str:
@@ -463,8 +465,61 @@ def _c(t: T, d, ctx: Ctx, cons: Dict[str, Any]):
     raise Unspecified(f"no model for {t}")
 
 
+BOOL_WORDS = {"0": False, "1": True, "f": False, "t": True, "n": False, "y": True, "no": False, "yes": True, "false": False,
+              "true": True, "off": False, "on": True, "ko": False, "ok": True}
+PRIM_CLASS = {"none": type(None), "bool": bool, "int": int, "float": float, "str": str}
+
+
+def table_coerce(kind: str, d):
+    """the documented coercion table; returns the coerced datum, or d unchanged when the table has
+    no entry (the strict check then decides)"""
+    td = type(d)
+    if td not in (str, int, float, bool, type(None)):
+        return d
+    if kind == "none":
+        return None if (td is str and d == "") else d
+    if kind == "bool":
+        if td is str and d.lower() in BOOL_WORDS:
+            return BOOL_WORDS[d.lower()]
+        if td is int:
+            return bool(d)
+        return d
+    if kind == "int":
+        if td is str:
+            try:
+                return int(d)
+            except ValueError:
+                return d
+        if td is float:
+            if d != d or d in (float("inf"), float("-inf")):
+                return d
+            return int(d)
+        return d
+    if kind == "float":
+        if td is str:
+            try:
+                return float(d)
+            except ValueError:
+                return d
+        if td is int:
+            if abs(d) > BIG:
+                raise Unspecified("huge int to float")
+            return float(d)
+        return d
+    if kind == "str":
+        if td in (int, float):
+            return str(d)
+        return d
+    return d
+
+
 def _prim(t: Prim, d, ctx, cons):
     k = t.kind
+    if ctx.coerce and k in PRIM_CLASS:
+        if ctx.custom_coercer is not None:
+            d = ctx.custom_coercer(PRIM_CLASS[k], d)
+        else:
+            d = table_coerce(k, d)
     dc = type(d)
     if k == "none":
         if d is None:
@@ -518,6 +573,18 @@ def _lit(pairs, d, ctx):
     for v, out in pairs:
         if type(v) is dc and v == d:
             return out
+    if ctx.coerce and dc not in (list, dict):
+        kinds = {type(v): {int: "int", float: "float", str: "str", bool: "bool", type(None): "none"}[type(v)] for v, _ in pairs}
+        hits = []
+        for cls, kind in kinds.items():
+            c = ctx.custom_coercer(cls, d) if ctx.custom_coercer is not None else table_coerce(kind, d)
+            for v, out in pairs:
+                if type(v) is type(c) and type(v) is cls and v == c:
+                    hits.append(out)
+        if len(hits) == 1:
+            return hits[0]
+        if len(hits) > 1:
+            raise Unspecified("datum coercible to several literal values")
     if dc in (list, dict):
         # one or more messages, text not documented
         raise Rejected(E([WILD]))
@@ -531,7 +598,7 @@ def _union(t: Uni, d, ctx, cons):
     others = []
     for a in flat_alts(t):
         ra = resolve(a, ctx)
-        if isinstance(ra, Prim) and ra.kind == "undefined":
+        if (isinstance(ra, Prim) and ra.kind == "undefined") or isinstance(ra, Unsup):
             continue
         try:
             v = _c(a, d, ctx, cons)
@@ -550,7 +617,14 @@ def _union(t: Uni, d, ctx, cons):
     raise Rejected(err)
 
 
+def _co(ctx, cls, d):
+    if ctx.coerce and ctx.custom_coercer is not None:
+        return ctx.custom_coercer(cls, d)
+    return d
+
+
 def _coll(t: Coll, d, ctx, cons):
+    d = _co(ctx, list, d)
     if type(d) is not list:
         if isinstance(d, list):
             raise Unspecified("list subclass")
@@ -589,6 +663,7 @@ def _hashable(v):
 
 
 def _tuple(t: Tup, d, ctx, cons):
+    d = _co(ctx, list, d)
     if type(d) is not list:
         if isinstance(d, list):
             raise Unspecified("list subclass")
@@ -611,6 +686,7 @@ def _tuple(t: Tup, d, ctx, cons):
 
 
 def _map(t: MapT, d, ctx, cons):
+    d = _co(ctx, dict, d)
     if type(d) is not dict:
         if isinstance(d, dict):
             raise Unspecified("dict subclass")
@@ -649,6 +725,7 @@ def _map(t: MapT, d, ctx, cons):
 
 
 def _obj(o: Obj, d, ctx: Ctx, cons):
+    d = _co(ctx, dict, d)
     if type(d) is not dict:
         if isinstance(d, dict):
             raise Unspecified("dict subclass")
